@@ -73,22 +73,22 @@ Definition dd_spec_ok (c : reader_case) : bool := raise_or (readable_dd (fst c))
 (** detect_sarif_tools: files (id, loaded document), observed: Some [(tool, file id)] | None = DuplicateToolError; crashes are
     reported separately by the harness as observed_kind = 2 *)
 From CM Require Import Model.SarifTools.
-Definition tools_case := (list (N * json) * N * list (N * N))%type.   (* files, outcome kind 0 ok / 1 duplicate / 2 crash, pairs (tool 0|1, file) *)
+Definition tools_case := (list N * list (N * json) * N * list (N * N))%type.
+(* observed detector order (tool codes), files, outcome kind 0 ok / 1 duplicate / 2 crash, pairs (tool 0|1, file) in dict order *)
 Definition tool_code (t : tool) : N := match t with TSemgrep => 0 | TCodeQL => 1 end.
+Definition tool_of_code (n : N) : tool := match n with 0%N => TSemgrep | _ => TCodeQL end.
 Definition runs_of (doc : json) : option (list json) := match jget s_runs doc with Some (JArr l) => Some l | _ => None end.
 Definition tools_model_ok (c : tools_case) : bool :=
-  let '(files, kind, pairs) := c in
-  match detect_tools (map (fun fd => (fst fd, runs_of (snd fd))) files), kind with
-  | TOk m, 0%N =>
-      let mp := map (fun p => (tool_code (fst p), snd p)) m in
-      forallb (fun p => existsb (pair_eqb N.eqb N.eqb p) pairs) mp && forallb (fun p => existsb (pair_eqb N.eqb N.eqb p) mp) pairs
+  let '(ord, files, kind, pairs) := c in
+  match detect_tools_ord (map tool_of_code ord) (map (fun fd => (fst fd, runs_of (snd fd))) files), kind with
+  | TOk m, 0%N => list_eqb (pair_eqb N.eqb N.eqb) (map (fun p => (tool_code (fst p), snd p)) m) pairs   (* same attribution, same insertion order *)
   | TDuplicate, 1%N => true
   | TCrash, 2%N => true
   | _, _ => false
   end.
 (** spec: every file holding a recognisable run of a tool is attributed to it; non-inspectable and foreign runs change nothing *)
 Definition tools_spec_ok (c : tools_case) : bool :=
-  let '(files, kind, pairs) := c in
+  let '(_, files, kind, pairs) := c in
   match kind with
   | 0%N =>
       forallb (fun fd =>
